@@ -553,10 +553,11 @@ theorem am_detectBeyond_mirror (L : Int) (p : Params) (iso : List Iv) (ext int :
         have e1 : intervalsTotalLength (List.take c (List.map (mirrorIv L) iso.reverse))
             = intervalsTotalLength (iso.drop (iso.length - c)) := by
           rw [← mirrorL_eq_map_reverse, am_mirrorL_take, intervalsTotalLength_mirror]
-        have e2 := am_sentinel_min L b.2 ext int hpos he hi hib
+        -- since the fix of the sentinel distance (absent position = infinitely far) the distances are mirror invariant
+        -- without `hib` (the `SentinelInert…` hypothesis is kept in the statement for the callers)
         have e3 : mirrorPos L lastE.2 = L + 1 - lastE.2 := by
           simp only [mirrorPos, hend lastE hl, if_false]
-        simp only [Option.map_some, e1, mirrorIv_fst, e2]
+        simp only [Option.map_some, e1, mirrorIv_fst, am_distOrInf_mirror L b.2 ext he, am_distOrInf_mirror L b.2 int hi]
         split
         · simp only [Option.map_some, List.map_append, am_termMis_events L iso.length c, e3]
         · rfl
@@ -619,10 +620,9 @@ theorem am_detectBefore_mirror (L : Int) (p : Params) (iso : List Iv) (ext int :
           · exact q
         have e1 : intervalsTotalLength (List.drop (iso.length - c) (mirrorL L iso)) = intervalsTotalLength (iso.take c) := by
           rw [am_mirrorL_drop L iso c hle, intervalsTotalLength_mirror]
-        have e2 := am_sentinel_min L b.1 ext int hpos he hi hib
         have e3 : mirrorPos L firstE.1 = L + 1 - firstE.1 := by
           simp only [mirrorPos, hstart firstE hl, if_false]
-        simp only [Option.map_some, e1, mirrorIv_snd, e2]
+        simp only [Option.map_some, e1, mirrorIv_snd, am_distOrInf_mirror L b.1 ext he, am_distOrInf_mirror L b.1 int hi]
         split
         · simp only [Option.map_some, List.map_append, am_termMis_events' L iso.length c, e3]
         · rfl
